@@ -223,7 +223,12 @@ class Ref:
             nu, lam = p["nu"], p["lam"]
             z = np.outer(pos, near).ravel()
             x = np.concatenate([z - nu, -(z - nu)])
+            # ... and both sides of 0 at distances down to the smallest doubles
+            tiny = nu * 10.0 ** -np.arange(6.0, 40.0, 2.0)
+            x = np.concatenate([x, tiny, -tiny, [5e-324, -5e-324, 1e-300, -1e-300]])
             x = x[np.abs(x) > 0]
+            # (the domain of the Jacobian, as computed: |x| + nu above the mininu option)
+            x = x[np.abs(x) + nu > max(self.ctor.get("mininu", EPSB), 0) * (1 + 1e-9)]
             with np.errstate(all="ignore"):
                 ok = np.abs(lam * np.log(np.abs(x) + nu)) <= 12.0
             if abs(lam * math.log(nu)) > 13.8:
@@ -318,6 +323,10 @@ class Ref:
             # ... and both far tails, up to where u * u is still a finite double
             k = max(2, n // 10)
             u[:k] = rng.choice([-1.0, 1.0], size=k) * 10.0 ** rng.uniform(100, 153, size=k)
+            # ... and beyond, to the last decades of the number line
+            u[k:k + 3] = rng.choice([-1.0, 1.0], size=3) * 10.0 ** rng.uniform(155, 307.9,
+                                                                               size=3)
+            u[k + 3] = 1.7e308 * rng.choice([-1.0, 1.0])
             with np.errstate(all="ignore"):
                 x = u / sc + nu
             return x[np.isfinite(x)]
